@@ -62,8 +62,8 @@ Section TS.
   Hypothesis ptext_word : forall p s x, parse_double (up (v_ptext E p s x)) = Some (rd p x).
   Hypothesis atext_word : forall ap z x, parse_double (up (v_atext E ap z x)) = Some (rda ap z x).
   Hypothesis itext_int : forall z, (0 <= z <= 2147483647)%Z -> parse_int (v_itext E z) = Some z.
-  (* a value that is not <= 0 does not read back <= 0 *)
-  Hypothesis rd_sign : forall p x, xle (v_val E x) xq0 = false -> xle (rd p x) xq0 = false.
+  (* a value that is > 0 reads back > 0 *)
+  Hypothesis rd_sign : forall p x, xlt xq0 (v_val E x) = true -> xlt xq0 (rd p x) = true.
 
   Definition pnum (p : Z) (s : bool) (x : D) : num := mknum (up (v_ptext E p s x)) (rd p x).
   Definition anum (ap : Z) (z : bool) (x : D) : num := mknum (up (v_atext E ap z x)) (rda ap z x).
@@ -320,10 +320,10 @@ Section TS.
       destruct (convert_obj_wf o (e_par e) Hconv (conj Hz (conj Hd (conj Hm (conj Hr46 Hnf)))) Hmat) as [Hcl Hcm].
       { destruct Hpar as [P | [P | [P | [P | P]]]]; rewrite P; reflexivity. }
       destruct Hfr as [Hfnn Hasc].
-      assert (Hpos : forall z, In z (firstn (m_rows o) (m_z0 o)) -> xle (rd (m_dprec o) (fst z)) xq0 = false).
+      assert (Hpos : forall z, In z (firstn (m_rows o) (m_z0 o)) -> xlt xq0 (rd (m_dprec o) (fst z)) = true).
       { intros z Hin. apply rd_sign. unfold s, sobj_of, z0_real_pos in Hrp. cbn [o_z0_real_pos] in Hrp.
         rewrite forallb_forall in Hrp. rewrite Hrows in Hin. specialize (Hrp z Hin).
-        apply andb_prop in Hrp as [_ Hrp]. destruct (xle (v_val E (fst z)) xq0); [discriminate | reflexivity]. }
+        apply andb_prop in Hrp as [_ Hrp]. exact Hrp. }
       rewrite v2_load_lemma.
       + f_equal. unfold v2_result, ts2_loaded. rewrite Hh, Hn. cbn [h_type h_fmt h_z0 h_mult]. f_equal.
         * unfold v2_freqs. rewrite Hh. cbn [h_mult v2_of f_records]. apply freqs_of_records.
@@ -396,10 +396,10 @@ Section TS.
       destruct (convert_obj_wf o (e_par e) Hconv (conj Hz (conj Hd (conj Hm (conj Hr46 Hnf)))) Hmat) as [Hcl Hcm].
       { destruct Hpar as [P | [P | [P | [P | P]]]]; rewrite P; reflexivity. }
       destruct Hfr as [Hfnn Hasc].
-      assert (Hpos : forall z, In z (firstn (m_rows o) (m_z0 o)) -> xle (rd (m_dprec o) (fst z)) xq0 = false).
+      assert (Hpos : forall z, In z (firstn (m_rows o) (m_z0 o)) -> xlt xq0 (rd (m_dprec o) (fst z)) = true).
       { intros z Hin. apply rd_sign. unfold s, sobj_of, z0_real_pos in Hrp. cbn [o_z0_real_pos] in Hrp.
         rewrite forallb_forall in Hrp. rewrite Hrows in Hin. specialize (Hrp z Hin).
-        apply andb_prop in Hrp as [_ Hrp]. destruct (xle (v_val E (fst z)) xq0); [discriminate | reflexivity]. }
+        apply andb_prop in Hrp as [_ Hrp]. exact Hrp. }
       unfold v2_wf. rewrite Hh, Hn. cbn [h_type h_mult v2_of f_opts f_ports f_order f_nfreq f_ref f_records i_val i_text].
         split.
         { unfold ts_opts. constructor; [exact I |]. constructor; [cbn; destruct (e_par e); exact I |].
@@ -540,7 +540,7 @@ Section TS.
         unfold s, sobj_of, z0_real_pos in Hrp. cbn [o_z0_real_pos] in Hrp. rewrite forallb_forall in Hrp.
         destruct (m_z0 o) as [| z0 zr] eqn:Ez; [simpl in Hz; lia |]. cbn [hd].
         assert (Hin : In z0 (firstn (m_ports o) (z0 :: zr))) by (destruct (m_ports o); [lia | left; reflexivity]).
-        specialize (Hrp z0 Hin). apply andb_prop in Hrp as [_ Hrp]. destruct (xle (v_val E (fst z0)) xq0); [discriminate | reflexivity]. }
+        specialize (Hrp z0 Hin). apply andb_prop in Hrp as [_ Hrp]. exact Hrp. }
       split; [exact Hn |].
       split.
       { intro X. apply H2p. destruct Hpar as [P | [P | [P | [P | P]]]]; rewrite P in *; try discriminate X; reflexivity. }
